@@ -136,6 +136,9 @@ pub struct RunResult {
     pub last_submit_us: u64,
     pub end_us: u64,
     pub diag: [String; 2],
+    /// bytes each SCTP endpoint (A, B) handed to its DTLS transport (SctpTransport::link_stats), read at
+    /// the end of the run: compared with the captured bytes it reveals loss on the harness' own datagram path
+    pub link_bytes_sent: [u64; 2],
 }
 
 /// Deterministic message content: uid(4) size(4) then a keyed xorshift stream; truncated to `size`.
@@ -461,6 +464,10 @@ pub async fn run_case(w: &Workload, n: &NetSpec, lim: &Limits) -> anyhow::Result
         pair.a.sctp.as_ref().unwrap().diagnostic_info(),
         pair.b.sctp.as_ref().unwrap().diagnostic_info(),
     ];
+    let link_bytes_sent = [
+        pair.a.sctp.as_ref().unwrap().link_stats().bytes_sent,
+        pair.b.sctp.as_ref().unwrap().link_stats().bytes_sent,
+    ];
     let (trace, rules_fired, last_fault_us) = {
         let mut g = pair.sctp_layer.lock();
         let lf = g
@@ -502,6 +509,7 @@ pub async fn run_case(w: &Workload, n: &NetSpec, lim: &Limits) -> anyhow::Result
         last_submit_us,
         end_us,
         diag,
+        link_bytes_sent,
     })
 }
 
